@@ -2,6 +2,7 @@
 pub mod alloc;
 pub mod dmon;
 pub mod frame;
+pub mod fuzz;
 pub mod gen;
 pub mod mon;
 pub mod out;
@@ -30,11 +31,19 @@ pub struct Ctx {
     pub mode: String,
     pub profile: &'static str,
     pub rec: out::Rec,
+    /// fuzz mode: the one case index that is run in every random part (decisions come from the
+    /// tape, see rng::set_tape); exhaustive parts are skipped
+    pub fuzz: Option<u64>,
+    /// largest case index any loop asked about (fuzz mode uses it to size the index space)
+    pub max_case: std::cell::Cell<u64>,
 }
 
 impl Ctx {
     pub fn quick(&self) -> bool {
         self.tier == Tier::Quick
+    }
+    pub fn is_fuzz(&self) -> bool {
+        self.fuzz.is_some()
     }
     /// scale a workload size by tier
     pub fn n(&self, quick: usize, thorough: usize) -> usize {
@@ -45,6 +54,12 @@ impl Ctx {
         }
     }
     pub fn mine(&self, case: u64) -> bool {
+        if let Some(t) = self.fuzz {
+            if case > self.max_case.get() {
+                self.max_case.set(case);
+            }
+            return case == t;
+        }
         case >= self.start && (case % self.nshards as u64) as usize == self.shard
     }
 }
